@@ -26,7 +26,7 @@ RULE = ("cells: (a) densities (full|diag, R, D): entropy against the eigenvalue 
 
 def cells(tier, seed):
     out = []
-    Ds = (1, 2, 3) if tier == "quick" else (1, 2, 3, 4, 5)
+    Ds = (1, 2, 3, 5) if tier == "quick" else (1, 2, 3, 4, 5, 6)
     Rs = (1, 3) if tier == "quick" else (1, 2, 4)
     reps = 2 if tier == "quick" else 6
     for diag in (False, True):
